@@ -122,8 +122,9 @@ package webrtc
 // The advertised fingerprint: exactly one entry, the SHA-256 fingerprint of the certificate
 // (c.x509Cert is the certificate handed to the DTLS handshake by prepareStart).
 //@ func (Certificate).GetFingerprints
-//@ props C14
+//@ props C14 C12
 //@ requires c.x509Cert != nil
 //@ ensures err == nil ==> len(ret0) == 1 && ret0[0].Value == ufstr("fpOf", ufint("certId", c.x509Cert), uint64(crypto.SHA256)) && ret0[0].Algorithm == ufstr("nameOf", uint64(crypto.SHA256))
+//@ modifies nothing
 //@ loop 0 invariant i == 0 && rangeindex < 1 && len(res) == 1 && len(fingerprintAlgorithms) == 1 && fingerprintAlgorithms[0] == crypto.SHA256
 //@ loop 0 invariant rangeindex >= 0 ==> res[0].Value == ufstr("fpOf", ufint("certId", c.x509Cert), uint64(crypto.SHA256)) && res[0].Algorithm == ufstr("nameOf", uint64(crypto.SHA256))
